@@ -428,7 +428,7 @@ def call_lua_sandbox(
         if isinstance(args, dict):
             frame_args = {}
             for k, arg in args.items():
-                arg = re.sub(r"(?si)(<\s*noinclude\s*/\s*>|\n$)", "", arg)
+                arg = re.sub(r"(?si)<\s*noinclude\s*/\s*>", "", arg)
                 frame_args[k] = (arg, False)
         else:
             assert isinstance(args, (list, tuple))
@@ -450,8 +450,6 @@ def call_lua_sandbox(
                                 sortid="luaexec/477/20230710",
                             )
                             k = 1000
-                        if num <= k:
-                            num = k + 1
                 else:
                     # unnamed parameter
                     k = num
@@ -466,7 +464,7 @@ def call_lua_sandbox(
                 # (e.g., Template:cop-fay-conj-table), whereas Lua code
                 # does not always like them (e.g., remove_links() in
                 # Module:links).
-                arg = re.sub(r"(?si)(<\s*noinclude\s*/\s*>|\n$)", "", arg)
+                arg = re.sub(r"(?si)<\s*noinclude\s*/\s*>", "", arg)
                 frame_args[k] = (arg, m is not None)
         frame_args_lt: "_LuaTable" = lua.table_from(frame_args)  # type: ignore[union-attr]
 
